@@ -515,6 +515,16 @@ impl SlabRouter {
         let _key_guard = (Self::classify_key(key) == KeyClass::Embedding)
             .then(|| self.embedding_key_lock(key).write());
         if let Some(wal) = wal_guard.as_mut() {
+            // The metadata record carries the complete value and replays as the whole put, so it
+            // goes first: a crash between the records of one put must leave the old or the new
+            // value, never the new vector under the old fields (or the reverse).
+            // (sync behavior depends on WalConfig::sync_mode)
+            wal.append(&WalEntry::MetadataSet {
+                key: key.to_string(),
+                data: value.clone(),
+            })
+            .map_err(|e| SlabRouterError::WalError(format!("Failed to log put: {e}")))?;
+
             // Log embedding if present
             if let Some(TensorValue::Vector(embedding)) = value.get("_embedding") {
                 let entity_id = self.index.get_or_create(key);
@@ -542,13 +552,6 @@ impl SlabRouter {
                     }
                 }
             }
-
-            // Log metadata set (sync behavior depends on WalConfig::sync_mode)
-            wal.append(&WalEntry::MetadataSet {
-                key: key.to_string(),
-                data: value.clone(),
-            })
-            .map_err(|e| SlabRouterError::WalError(format!("Failed to log put: {e}")))?;
         }
 
         // Apply to in-memory state (still under the log lock)
@@ -679,15 +682,24 @@ impl SlabRouter {
             WalEntry::MetadataSet { key, data } => {
                 self.metadata.set(key, data.clone());
                 // Also update embeddings if present
+                let mut in_slab = false;
                 if let Some(TensorValue::Vector(vec)) = data.get("_embedding") {
                     let entity_id = self.index.get_or_create(key);
-                    if let Err(e) = self.embeddings.set(entity_id, vec) {
-                        tracing::warn!(
+                    match self.embeddings.set(entity_id, vec) {
+                        Ok(()) => in_slab = true,
+                        Err(e) => tracing::warn!(
                             entity_id = %entity_id.as_u64(),
                             key = %key,
                             error = %e,
                             "Failed to restore embedding during WAL replay"
-                        );
+                        ),
+                    }
+                }
+                // Like the put itself: a value that brings no slab vector drops the one an
+                // earlier value of this embedding key left in the slab.
+                if !in_slab && Self::classify_key(key) == KeyClass::Embedding {
+                    if let Some(entity_id) = self.index.get(key) {
+                        self.embeddings.delete(entity_id);
                     }
                 }
             },
